@@ -15,8 +15,10 @@ import (
 	"errors"
 	"io"
 	"math"
+	"os"
 	"sort"
 	"strconv"
+	"sync"
 	"testing"
 )
 
@@ -482,6 +484,10 @@ func TestVerifTlv(t *testing.T) {
 	out := vOpenOut()
 	defer out.close()
 	master := vNewRng(vSeed())
+	if os.Getenv("VERIF_RETAIN_ONLY") != "" {
+		vRetainStreams(out, master.fork(1<<41)) // the -race run of the thorough tier
+		return
+	}
 
 	// ---- BigSize: boundaries, every width, non-minimal, truncated ----
 	edge := []uint64{0, 1, 0xfc, 0xfd, 0xfe, 0xff, 0x100, 0xfffe, 0xffff, 0x10000, 0x10001,
@@ -538,6 +544,8 @@ func TestVerifTlv(t *testing.T) {
 		out.emit(vRunStream(ks, p2p, b, mut))
 	}
 
+	vRetainStreams(out, master.fork(1<<41))
+
 	// fixed witnesses (the non-p2p CopyN quirk and the DBigSize length quirk)
 	out.emit(vRunStream(nil, false, []byte{1, 0xff, 0x80, 0, 0, 0, 0, 0, 0, 0}, "witness-copyn"))
 	out.emit(vRunStream(nil, true, []byte{1, 0xff, 0x80, 0, 0, 0, 0, 0, 0, 0}, "witness-copyn"))
@@ -560,4 +568,149 @@ func TestVerifTlv(t *testing.T) {
 		}
 		rec(nil, 4)
 	}
+}
+
+// ---- retention: what a stream decode returned stays what it was ----
+//
+// Windows of 128 accepted P2P streams (all known kinds, var-bytes values of shrinking then
+// growing sizes, unknown records): the decoded variables and the parsed-type map (raw
+// bytes of the unknown records) are kept, the input is overwritten right after decode, and
+// after the whole window (and after 8 goroutines did the same concurrently) every kept
+// value must equal its snapshot.
+type vKeptStream struct {
+	b    []byte
+	vars *vVars
+	tm   TypeMap
+	snap string
+}
+
+func vSnap(v *vVars, tm TypeMap) string {
+	var sb bytes.Buffer
+	sb.WriteString(strconv.FormatUint(v.u64, 10) + "," + strconv.FormatUint(v.tu64, 10) + "," +
+		strconv.FormatUint(v.bs, 10) + "," + vhx(v.vb) + "," + vhx(v.b32[:]) + "," + vhx(v.b33[:]) + "," +
+		strconv.FormatUint(uint64(v.tu32), 10) + "," + strconv.FormatUint(uint64(v.u32), 10) + "," +
+		strconv.FormatUint(uint64(v.tu16), 10) + "," + strconv.FormatUint(uint64(v.u16), 10) + "," +
+		strconv.FormatBool(v.bl) + "," + strconv.FormatUint(uint64(v.u8), 10) + ";")
+	types := make([]uint64, 0, len(tm))
+	for t := range tm {
+		types = append(types, uint64(t))
+	}
+	sort.Slice(types, func(i, j int) bool { return types[i] < types[j] })
+	for _, t := range types {
+		raw := tm[Type(t)]
+		sb.WriteString(strconv.FormatUint(t, 10) + "=")
+		if raw == nil {
+			sb.WriteString("known;")
+		} else {
+			sb.WriteString(vhx(raw) + ";")
+		}
+	}
+	return sb.String()
+}
+
+func vRetainWindow(cases [][]byte) (kept []*vKeptStream, aliased []*vKeptStream) {
+	for _, c := range cases {
+		in := append([]byte{}, c...)
+		v := &vVars{}
+		recs := make([]Record, 0, len(vKnownAll))
+		for _, k := range vKnownAll {
+			recs = append(recs, v.record(k))
+		}
+		tm, err := func() (tm TypeMap, err error) {
+			defer func() {
+				if p := recover(); p != nil {
+					err = io.ErrUnexpectedEOF
+				}
+			}()
+			return MustNewStream(recs...).DecodeWithParsedTypesP2P(bytes.NewReader(in))
+		}()
+		if err != nil {
+			continue
+		}
+		k := &vKeptStream{b: c, vars: v, tm: tm, snap: vSnap(v, tm)}
+		for j := range in {
+			in[j] ^= 0xa5
+		}
+		if vSnap(v, tm) != k.snap {
+			aliased = append(aliased, k)
+			continue
+		}
+		kept = append(kept, k)
+	}
+	return kept, aliased
+}
+
+func vRetainStreams(out *vWriter, r *vrng) {
+	var cases [][]byte
+	sizes := []int{5000, 3000, 1500, 700, 701, 300, 100, 30, 5, 0, 6, 90, 400, 2000, 5001}
+	for rep := 0; rep < 6; rep++ {
+		for _, n := range sizes {
+			// known var-bytes record 6 of n bytes, an unknown odd record of n/2+1 bytes, some fixed ones
+			rs := []vRec{{typ: 2, val: r.bytes(8)}, {typ: 6, val: r.bytes(n)}, {typ: 8, val: r.bytes(32)},
+				{typ: 25, val: r.bytes(n/2 + 1)}, {typ: 65537, val: r.bytes(r.intn(40))}}
+			cases = append(cases, vSerialize(rs))
+		}
+	}
+	for i := 0; i < 200; i++ {
+		_, p2p, b, _ := vGenStream(r.fork(uint64(i)))
+		if p2p {
+			cases = append(cases, b)
+		}
+	}
+	bad := 0
+	report := func(kind, stream string, k *vKeptStream, culprits [][]byte) {
+		bad++
+		if bad > 6 {
+			return
+		}
+		var cs []string
+		for _, c := range culprits {
+			if len(cs) < 16 {
+				cs = append(cs, vhx(c))
+			}
+		}
+		out.emit(map[string]any{"k": "retain", "ok": false, "kind": kind, "stream": stream, "b": vhx(k.b),
+			"culprits": cs, "detail": ""})
+	}
+	nkept := 0
+	for lo := 0; lo < len(cases); lo += 128 {
+		hi := lo + 128
+		if hi > len(cases) {
+			hi = len(cases)
+		}
+		kept, aliased := vRetainWindow(cases[lo:hi])
+		for _, k := range aliased {
+			report("decoded value aliases its input bytes", "window", k, nil)
+		}
+		nkept += len(kept)
+		for _, k := range kept {
+			if vSnap(k.vars, k.tm) != k.snap {
+				report("retained value changed after later decodes", "window", k, cases[lo:hi])
+			}
+		}
+	}
+	const G = 8
+	res := make([][]*vKeptStream, G)
+	var wg sync.WaitGroup
+	for g := 0; g < G; g++ {
+		wg.Add(1)
+		go func(g int) {
+			defer wg.Done()
+			var part [][]byte
+			for i := g; i < len(cases); i += G {
+				part = append(part, cases[i])
+			}
+			res[g], _ = vRetainWindow(part)
+		}(g)
+	}
+	wg.Wait()
+	for g := 0; g < G; g++ {
+		nkept += len(res[g])
+		for _, k := range res[g] {
+			if vSnap(k.vars, k.tm) != k.snap {
+				report("retained value changed after later decodes", "concurrent", k, nil)
+			}
+		}
+	}
+	out.emit(map[string]any{"k": "retain_sum", "cases": 2 * len(cases), "kept": nkept, "bad": bad})
 }
